@@ -445,6 +445,26 @@ def run_xml(ctx, text, case, sdir):
     o = call(lambda: odml.load(path, show_warnings=False))
     judge(rec, "odml.load-xml", "lenient", o[0], o[1], None, o[2], case, o[3], must_succeed=current,
           wrong_version=wrong_version)
+    # file like objects instead of a path: text and byte streams, streams whose name is no path
+    import tempfile
+
+    def tmpfile(mode):
+        f = tempfile.TemporaryFile(mode) if "b" in mode else tempfile.TemporaryFile(mode, encoding="utf-8")
+        f.write(text.encode("utf-8") if "b" in mode else text)
+        f.seek(0)
+        return f
+    for label, mk in (("StringIO", lambda: io.StringIO(text)), ("BytesIO", lambda: io.BytesIO(text.encode("utf-8"))),
+                      ("TemporaryFile-bytes", lambda: tmpfile("w+b")), ("TemporaryFile-text", lambda: tmpfile("w+")),
+                      ("open-bytes", lambda: open(path, "rb"))):
+        for mode in ("strict", "lenient"):
+            try:
+                stream = mk()
+            except Exception:
+                continue          # (text the platform cannot put into such a stream)
+            o = call(lambda: XMLReader(ignore_errors=mode == "lenient", show_warnings=False).from_file(stream))
+            # (a text stream that carries an encoding declaration cannot be parsed at all: plain ParserException)
+            wv = wrong_version and not (label in ("StringIO", "TemporaryFile-text") and text.lstrip().startswith("<?xml"))
+            judge(rec, "xml.from_file(%s)" % label, mode, o[0], o[1], None, o[2], case, o[3], wrong_version=wv)
     # the default: with the validation report after parsing
     o = call(lambda: ODMLReader("XML").from_string(text))
     judge(rec, "odmlreader-xml.from_string+report", "strict", o[0], o[1], None, o[2], case, o[3], wrong_version=wrong_version)
@@ -804,7 +824,17 @@ def run_case(case, ctx, sdir):
     with warnings.catch_warnings():
         warnings.simplefilter("ignore")
         fam = case["family"]
-        if fam == "text":
+        if fam == "deep-nesting":
+            n = case["depth"]
+            if case["what"] == "xml":
+                text = '<odML version="1.1">' + "<section><name>s</name><type>t</type>" * n + "</section>" * n + "</odML>"
+                run_xml(ctx, text, dict(case, text="(%d nested sections)" % n), sdir)
+            else:
+                d = {"name": "s", "type": "t"}
+                for _ in range(n):
+                    d = {"name": "s", "type": "t", "sections": [d]}
+                run_dict(ctx, {"Document": {"sections": [d]}, "odml-version": "1.1"}, case, sdir)
+        elif fam == "text":
             run_xml(ctx, case["text"], case, sdir)
             run_text(ctx, case["text"], case, sdir)
         elif fam == "xml-one-defect":
@@ -832,7 +862,14 @@ def run(ctx):
         rng = random.Random("C16|%s|%d" % (ctx.seed, i))
         fam = ["text", "xml-grammar", "xml-grammar", "xml-mutation", "dict-grammar", "dict-grammar", "dict-mutation",
                "xml-own-file", "xml-one-defect", "dict-one-defect"][i % 10]
-        if fam == "text":
+        if i % 250 == 7:
+            fam = "deep-nesting"
+        if fam == "deep-nesting":
+            # nesting beyond what parsers and recursive readers take for granted
+            what = rng.choice(["xml", "xml", "dict"])
+            depth = rng.choice([120, 200, 257, 300, 400, 700, 1200, 3000]) if what == "xml" else rng.choice([40, 80, 120])
+            case = {"family": fam, "depth": depth, "what": what}
+        elif fam == "text":
             case = {"family": fam, "text": rand_text(rng)}
         elif fam == "xml-grammar":
             case = {"family": fam, "text": rand_xml_tree(rng)}
